@@ -64,12 +64,7 @@ func (r Int64) MAX(a, b Int64) Scalar {
 }
 /* -------------------------------------------------------------------------- */
 func (c Int64) ABS(a Int64) Scalar {
-  if c.Sign() == -1 {
-    c.NEG(a)
-  } else {
-    c.SET(a)
-  }
-  return c
+  return c.Abs(a)
 }
 /* -------------------------------------------------------------------------- */
 func (c Int64) NEG(a Int64) Int64 {
